@@ -170,7 +170,7 @@ func c05Exec(c *rawCase, measureAlloc bool) (*core.Finding, int64) {
 			decl = n
 		}
 		if lim := int64(16<<10) + 256*int64(decl); alloc > lim {
-			return mk("alloc-unbounded", fmt.Sprintf("%d bytes allocated during the call, bound %d (declared length %d)", alloc, lim, decl)), res.Steps
+			return mk("alloc-unbounded", fmt.Sprintf("more than %d bytes allocated during the call (bound: 16 KiB + 256 x the declared length %d)", lim, decl)), res.Steps
 		}
 	}
 	if p != nil {
@@ -252,6 +252,22 @@ func longFamilies(n int) []longFrame {
 		if fam == "distinct" {
 			add("PUBLISH.subids.distinct", p2)
 		}
+	}
+	// elements in descending order (a decoder that keeps a list sorted
+	// pays for every element that is smaller than one already seen), and
+	// filters whose option byte has the reserved bits set (a decoder that
+	// collects a remark per element)
+	pd := &spec.Packet{Type: 3, Topic: []byte("t")}
+	for i := 0; i < n; i++ {
+		pd.Props = append(pd.Props, spec.Prop{ID: 0x0b, N: uint32(n - i)})
+	}
+	add("PUBLISH.subids.descending", pd)
+	{
+		body := []byte{0, 1, 0}
+		for i := 0; i < n; i++ {
+			body = append(body, 0, 1, 'a', 0xc1)
+		}
+		out = append(out, longFrame{"SUBSCRIBE.filters.reserved-option-bits", n, reframe(0x82, body)})
 	}
 	add("SUBACK.codes", suback)
 	add("UNSUBACK.codes", unsuback)
